@@ -741,7 +741,7 @@ impl CCtx {
 fn fc_atom(i: u64) -> E {
     if i == 0 { var(DSP_IN) } else { num(1.0) }
 }
-const FC_RADIX: u64 = 42;
+const FC_RADIX: u64 = 43;
 pub fn fc_count(k: u32) -> u64 {
     seq_count(FC_RADIX, k)
 }
@@ -1021,6 +1021,23 @@ fn fc_stmt(c: &mut CCtx, o: u64) -> Option<()> {
             c.vars.push((f, Ty::C1, false));
             c.vars.push((r1, Ty::F, false));
         }
+        42 => {
+            // a closure nested three levels deep assigns a local of the outermost frame
+            let v = c.fresh("c");
+            let f = c.fresh("f");
+            let r = c.fresh("r");
+            c.ops.push(format!("let {v} = {}; let {f} = | | {{ let g = | | {{ let h = | | {{ {v} = {v} + 1; {v} }}; h() }}; g() }}; let {r} = {f}() + {v} * 100", pe(&a, 0)));
+            c.stmts.push(let_(&v, a.clone()));
+            let (s1, s2, s3) = (c.sites.next(), c.sites.next(), c.sites.next());
+            let h_body = E::Block(vec![S::Assign(v.clone(), bin("+", var(&v), num(1.0)))], Some(Box::new(var(&v))));
+            let g_body = E::Block(vec![let_("h", E::Lambda(vec![], Box::new(h_body)))], Some(Box::new(call("h", vec![], s1))));
+            let f_body = E::Block(vec![let_("g", E::Lambda(vec![], Box::new(g_body)))], Some(Box::new(call("g", vec![], s2))));
+            c.stmts.push(let_(&f, E::Lambda(vec![], Box::new(f_body))));
+            c.stmts.push(let_(&r, bin("+", call(&f, vec![], s3), bin("*", var(&v), num(100.0)))));
+            c.vars.push((v, Ty::F, true));
+            c.vars.push((f, Ty::C0, false));
+            c.vars.push((r, Ty::F, false));
+        }
         23 => {
             // named stateful function passed as a value
             let r = c.fresh("r");
@@ -1108,7 +1125,7 @@ fn mkcounter() -> Item {
 
 // ================================================================== FA: aggregates
 
-const FA_RADIX: u64 = 48;
+const FA_RADIX: u64 = 51;
 pub fn fa_count(k: u32) -> u64 {
     seq_count(FA_RADIX, k)
 }
@@ -1341,6 +1358,27 @@ fn fa_stmt(c: &mut ACtx, o: u64) -> Option<()> {
             let v = c.fresh("p");
             let s = c.sites.next();
             c.push(v, ATy::F, E::CallPack("defc".into(), vec![("a".into(), c.f(0)?)], s), "defc({a = a}) with fn defc(a, b = 1 + cos(0) * 2)".into());
+        }
+        48 => {
+            // a tuple projection used directly as the time operand of a delay
+            let t = c.last(ATy::T2)?;
+            let v = c.fresh("p");
+            let s = c.sites.next();
+            c.push(v, ATy::F, E::Delay(8.0, Box::new(c.f(0)?), Box::new(E::Proj(Box::new(var(&t)), 1)), s), "delay(8, a, pair.1)".into());
+        }
+        49 => {
+            // a tuple projection used directly as an array index
+            let t = c.last(ATy::T2)?;
+            let a = c.last(ATy::Arr)?;
+            let v = c.fresh("p");
+            c.push(v, ATy::F, E::Index(Box::new(var(&a)), Box::new(E::Proj(Box::new(var(&t)), 1))), "array[pair.1]".into());
+        }
+        50 => {
+            // tuple projections as the two arms of an if (operands of the merge)
+            let t = c.last(ATy::T2)?;
+            let v = c.fresh("p");
+            let e = E::If(Box::new(bin(">", c.f(0)?, num(0.5))), Box::new(E::Proj(Box::new(var(&t)), 0)), Box::new(E::Proj(Box::new(var(&t)), 1)));
+            c.push(v, ATy::F, e, "if (a > 0.5) pair.0 else pair.1".into());
         }
         40 => {
             let v = c.fresh("t");
@@ -2104,6 +2142,67 @@ pub fn features(p: &Prog) -> Vec<String> {
     }
     if factory_calls >= 2 {
         tags.push("closure_factory_called_more_than_once".into());
+    }
+    // a tuple projection used directly as the time operand of a delay, or as an arm of an if
+    {
+        let mut hit = false;
+        for it in &p.items {
+            let e = match it {
+                Item::Fn(f) => &f.body,
+                Item::Let(_, e) => e,
+            };
+            walk(e, &mut |x| match x {
+                E::Delay(_, _, t, _) if matches!(**t, E::Proj(..)) => hit = true,
+                E::If(_, a, b) if matches!(**a, E::Proj(..)) || matches!(**b, E::Proj(..)) => hit = true,
+                _ => {}
+            });
+        }
+        if hit {
+            tags.push("tuple_projection_as_delay_time_or_if_arm".into());
+        }
+    }
+    // a lambda nested inside another lambda assigns a variable that is bound outside the outer lambda
+    {
+        let mut hit = false;
+        for it in &p.items {
+            let e = match it {
+                Item::Fn(f) => &f.body,
+                Item::Let(_, e) => e,
+            };
+            walk(e, &mut |outer| {
+                if let E::Lambda(ps, ob) = outer {
+                    // names bound inside the outer lambda (parameters, lets at any depth)
+                    let mut bound: Vec<String> = ps.iter().map(|p| p.split(':').next().unwrap().to_string()).collect();
+                    walk(ob, &mut |x| {
+                        if let E::Block(ss, _) = x {
+                            for s in ss {
+                                match s {
+                                    S::Let(Pat::Var(n), _) | S::LetRec(n, _) => bound.push(n.split(':').next().unwrap().to_string()),
+                                    _ => {}
+                                }
+                            }
+                        }
+                        if let E::Lambda(ps2, _) = x {
+                            bound.extend(ps2.iter().map(|p| p.split(':').next().unwrap().to_string()));
+                        }
+                    });
+                    walk(ob, &mut |inner| {
+                        if let E::Lambda(_, ib) = inner {
+                            walk(ib, &mut |x| {
+                                if let E::Block(ss, _) = x {
+                                    if ss.iter().any(|s| matches!(s, S::Assign(v, _) if !bound.contains(&v.split('.').next().unwrap().to_string()))) {
+                                        hit = true;
+                                    }
+                                }
+                            });
+                        }
+                    });
+                }
+            });
+        }
+        if hit {
+            tags.push("nested_closure_assigns_outer_local".into());
+        }
     }
     // does dsp create a closure object on every call? (lambda, factory call, top-level function used as a value)
     let fn_names: Vec<String> = p.items.iter().filter_map(|it| if let Item::Fn(f) = it { Some(f.name.clone()) } else { None }).collect();
